@@ -44,6 +44,9 @@ def check(chk, fx):
     result(chk, fx)
     lexrules.match(chk, fx)
     lexrules.slice_rule(chk, fx)
+    from .. import golden, goldenreg
+    golden.group(chk, fx, "CVEC", "reference summaries of the fixed-capacity vector primitives (stack operations)",
+                 goldenreg.GROUPS["CVEC"])
     # the documented helper functors are rule functors too: their type-level witness and pattern rules (C19)
     from . import c19
     c19.hlp_t(chk, ("clang++",))
